@@ -65,7 +65,11 @@ def gen_doc(rng):
             return ('KTable [o "tr"; o "td"; tx (lit "%s"); c "td"; c "tr"]' % t), "<mj-table><tr><td>%s</td></tr></mj-table>" % t
         if k == "social":
             vert = rng.random() < 0.4
-            els = [opt(lambda x: '<mj-social-element name="%s">%s</mj-social-element>' % (rng.choice(["facebook", "twitter", "github"]), x)) for _ in range(rng.choice([0, 1, 2, 3]))]
+            els = []
+            for _ in range(rng.choice([0, 1, 2, 3])):
+                link = rng.random() < 0.4
+                t, m = opt(lambda x: '<mj-social-element name="%s"%s>%s</mj-social-element>' % (rng.choice(["facebook", "twitter", "github"]), ' href="https://x/p"' if link else "", x))
+                els.append(("(%s, %s)" % ("true" if link else "false", t), m))
             return ("KSocial %s [%s]" % ("true" if vert else "false", "; ".join(t for t, _ in els)),
                     "<mj-social%s>%s</mj-social>" % (' mode="vertical"' if vert else rng.choice(["", ' icon-size="30px"']), "".join(m for _, m in els)))
         if k == "navbar":
